@@ -369,7 +369,19 @@ fn scenario(kind: Kind, seed: u64, k: u64, out: &Out) {
     let n_actions = rng.range(1, 6);
     let mut forked = false;
     if tiny {
-        let _ = w.run_until(&mut hook, 12, |w| w.converged_on(0));
+        // half of them do not wait for the filter sync: block#1 may still be a pending (matched, not yet downloaded) record when the
+        // network moves on
+        if rng.chance(1, 2) {
+            let _ = w.run_until(&mut hook, 12, |w| w.converged_on(0));
+        } else {
+            let _ = w.run_until(&mut hook, 12, |w| w.tip_hash() == w.chains[0].tip_hash());
+            for _ in 0..rng.range(0, 2) {
+                w.round(&mut hook);
+            }
+            if w.matched_pending() {
+                sc.flag("matched-pending-at-tip-1");
+            }
+        }
         sc.flag("tip-1-start");
         if w.dead {
             out.count("tiny_start_dead", 1);
